@@ -14,7 +14,7 @@ import warnings
 import weakref as _weakref
 
 from vlib.cond import Cond
-from vlib.prelude import SYMBOLIC, Chooser, NoTracing, reached
+from vlib.prelude import SYMBOLIC, Chooser, NoTracing, attempt, reached
 
 META = {
     "functions": ["typelib.py.classes.slotted", "typelib.py.classes.slotted.<locals>.wrap", "typelib.py.classes._stack"],
@@ -23,7 +23,8 @@ META = {
                  "{none, unslotted dataclass, slotted dataclass, slotted with weakref, slotted parent over an unslotted grandparent}, user __getstate__ / __setstate__ (none, both, __setstate__ alone), the four "
                  "(dict, weakref) combinations - every combination (choice variables, exhaustively enumerated); decoration histories "
                  "of 1-3 classes over {valid dataclass, same-named frozen dataclass, non-dataclass (fails), same-named subclass of an unslotted dataclass, other name, a class whose re-creation decorates another class with a similar long name (nested decoration)}; "
-                 "every returned class is checked to be built from the class passed in (fields, frozen, order, name, slots)",
+                 "every returned class is checked to be built from the class passed in (fields, frozen, order, name, slots); "
+                 "user members (method, classmethod, staticmethod, property, zero-argument super() in a method / __post_init__ / __init_subclass__, subclassing the result) x frozen x mixin base x weakref",
         "thorough": "0-4 fields, histories of 1-4 classes",
     },
     "assumptions": ["field values are fixed distinct ints; two instances per class (equal / differing in the last field)",
@@ -251,6 +252,87 @@ def make_def(basek, d, w, timeout, max_fields):
     return Cond(f"def/base{basek}/dict{int(d)}_weakref{int(w)}", [(f"c{i}", int) for i in range(14)], body, mode="E3", timeout=timeout)
 
 
+_METHOD_SRC = """
+import dataclasses
+
+class Mixin:
+    def describe(self):
+        return "mixin"
+
+    def __init_subclass__(cls, **kw):
+        super().__init_subclass__(**kw)
+        cls.registered = True
+
+
+@dataclasses.dataclass(frozen={frozen})
+class M({bases}):
+    a: int = 1
+    b: int = 2
+
+    def total(self):
+        return self.a + self.b
+
+    @classmethod
+    def make(cls, a):
+        return cls(a)
+
+    @staticmethod
+    def helper(x):
+        return x + 1
+
+    @property
+    def double(self):
+        return self.a * 2
+{extra}
+"""
+
+_METHOD_EXTRAS = [
+    "",
+    "    def describe(self):\n        return 'M+' + super().describe()\n",                      # zero-argument super in a method
+    "    def __post_init__(self):\n        super().__init__()\n",                                 # ... in __post_init__
+    "    @classmethod\n    def __init_subclass__(cls, **kw):\n        super().__init_subclass__(**kw)\n        cls.sub = True\n",  # ... in a subclass hook
+    "    def describe(self):\n        return 'M+' + Mixin.describe(self)\n",                      # explicit base call
+]
+
+
+def make_methods(timeout):
+    """User-defined members survive the re-creation of the class: methods, class/static methods, properties, zero-argument
+    super(), subclassing the decorated class."""
+
+    def body(c0: int, c1: int, c2: int, c3: int):
+        ch = Chooser((c0, c1, c2, c3))
+        with NoTracing():
+            k = ch.pick(len(_METHOD_EXTRAS))
+            frozen = ch.flag() and k != 2
+            with_mixin = ch.flag() or k in (1, 3, 4)
+            w = ch.flag()
+            ns = {"__name__": MOD.__name__}
+            exec(_METHOD_SRC.format(frozen=frozen, bases="Mixin" if with_mixin else "object", extra=_METHOD_EXTRAS[k]), ns)  # noqa: S102
+            C = ns["M"]
+            desc = (k, frozen, with_mixin, w)
+            probes = [("total", lambda K: K(3, 4).total()), ("make", lambda K: dataclasses.astuple(K.make(5))), ("helper", lambda K: K.helper(1)),
+                      ("double", lambda K: K(3).double), ("describe", lambda K: K().describe() if hasattr(K, "describe") else None),
+                      ("construct", lambda K: dataclasses.astuple(K())),
+                      ("subclass", lambda K: (type("Sub", (K,), {"__module__": MOD.__name__})(7).a, getattr(K, "registered", None)))]
+            # "like instances of dataclass C": C as defined, observed before the decorator runs (the methods of the class
+            # body share one __class__ cell, which the decorator may point at the replacement class)
+            want = [attempt(fn, C) for _, fn in probes]
+            try:
+                S = _slotted(C, dict=False, weakref=w)
+            except Exception as e:  # noqa: BLE001
+                reached()
+                return ("decoration_raised:" + type(e).__name__, "methods", _d(desc, e))
+            reached()
+            for (name, fn), a in zip(probes, want):
+                b = attempt(fn, S)
+                if a[0] != b[0] or (a[0] and a[1] != b[1]):
+                    kind = "zero_arg_super" if (k in (1, 2, 3) and not b[0] and "super" in str(b[1])) else "other"
+                    return (f"user_member_behaves_differently:{kind}", "methods:" + name, _d(desc, a, b))
+        return None
+
+    return Cond("methods/user_members", [(f"c{i}", int) for i in range(4)], body, mode="E3", timeout=timeout)
+
+
 class _Pinned:
     """A Chooser whose k-th consulted choice is pinned (partitions the space over conditions)."""
 
@@ -349,4 +431,5 @@ def conditions(tier, seed):
     mf = 3 if tier == "quick" else 4
     out = [make_def(b, d, w, to, mf) for b in range(5) for d in (False, True) for w in (False, True)]
     out += [make_history(n, to) for n in ((1, 2, 3) if tier == "quick" else (1, 2, 3, 4))]
+    out.append(make_methods(to))
     return out
